@@ -241,7 +241,7 @@ impl Property for C19 {
     }
     fn runs(&self, tier: Tier) -> u64 {
         match tier {
-            Tier::Quick => 6_000,
+            Tier::Quick => 4_000,
             Tier::Thorough => 1_500_000,
         }
     }
@@ -364,8 +364,8 @@ fn miri_failure(line: &str) -> Option<(Failure, J)> {
 pub fn miri_batch(seed: u64, tier: Tier) -> crate::harness::SecondEngine {
     let t0 = std::time::Instant::now();
     let (nscen, nseeds) = match tier {
-        Tier::Quick => (std::env::var("VERIF_MIRI_SCENARIOS").ok().and_then(|s| s.parse().ok()).unwrap_or(5u64), 16u64),
-        Tier::Thorough => (std::env::var("VERIF_MIRI_SCENARIOS").ok().and_then(|s| s.parse().ok()).unwrap_or(150u64), 64u64),
+        Tier::Quick => (std::env::var("VERIF_MIRI_SCENARIOS").ok().and_then(|s| s.parse().ok()).unwrap_or(8u64), 32u64),
+        Tier::Thorough => (std::env::var("VERIF_MIRI_SCENARIOS").ok().and_then(|s| s.parse().ok()).unwrap_or(160u64), 128u64),
     };
     let mut ok_runs = 0u64;
     let mut overlaps = 0u64;
@@ -377,7 +377,10 @@ pub fn miri_batch(seed: u64, tier: Tier) -> crate::harness::SecondEngine {
     for i in 0..nscen {
         let scn = Rng::for_run(seed, "C19-miri-scenario", i).next_u64() % 1_000_000_000;
         scenario_seeds.push(scn);
-        let extra: Vec<&str> = if i % 3 == 2 { vec!["validators"] } else { vec![] };
+        // seven of every eight scenarios are first-use races, one setting after the other; the eighth
+        // is a scenario of the general generator
+        let race = format!("race:{}", i - i / 8);
+        let extra: Vec<&str> = if i % 8 == 7 { vec!["validators"] } else { vec![race.as_str()] };
         let out = match miri_run(&scn.to_string(), &extra, &format!("-Zmiri-many-seeds=0..{nseeds}")) {
             Ok(o) => o,
             Err(e) => {
@@ -411,7 +414,7 @@ pub fn miri_batch(seed: u64, tier: Tier) -> crate::harness::SecondEngine {
                 continue;
             }
         };
-        let doc_base = json!({"property": "C19", "engine": "miri", "seed": seed, "scenario_seed": scn, "scenario_args": extra, "miri_seed": ms, "miri_flags": MIRI_FLAGS, "harness_version": crate::harness::HARNESS_VERSION});
+        let doc_base = json!({"property": "C19", "engine": "miri", "seed": seed, "scenario_seed": scn, "scenario_args": extra.clone(), "miri_seed": ms, "miri_flags": MIRI_FLAGS, "harness_version": crate::harness::HARNESS_VERSION});
         if let Some((f, j)) = again.stdout.lines().find_map(miri_failure) {
             let mut doc = doc_base;
             doc["violation"] = json!({"class": f.class, "signature": f.signature, "detail": f.detail});
